@@ -256,6 +256,7 @@ class ReplayOutcome:
         self.truncated = []  # shards given up after 200 attributed crashes
         self.errors = []     # (index, text)
         self.side = []       # side-channel documents ("O" lines), as JSON text
+        self.unreproduced = []  # (index, sig): failures that did not happen again in two isolated re-runs (not counted)
 
 
 def _run_child(binary, engine, infile, shard, nshards, after, only, timeout, env, rlimit_as, extra, cb):
@@ -298,28 +299,37 @@ def _run_child(binary, engine, infile, shard, nshards, after, only, timeout, env
             cb("T", int(rest), "")
             inflight = None
         elif tag == "O":
-            cb("O", -1, rest)
+            cb("O", inflight if inflight is not None else -1, rest)
     p.wait()
     th.join(2)
     shutil.rmtree(cdir, ignore_errors=True)
     return p.returncode, inflight, (errbuf[0] if errbuf else "")
 
 
+UNREPRODUCED = []      # every report of this run that two isolated re-runs did not show again (goes into the evidence)
+CONFIRM_FAILURES = 40  # at most this many reported failures are re-run in isolation before they count (more = systematic)
+NONDET_ENGINES = {"pool", "wireconc"}   # engines that sample schedules: a failure need not happen again
 MAX_TIMEOUTS = 6      # confirmed-or-not hangs after which a shard stops exploring
 RETRY_TIMEOUTS = 4    # hangs retried in isolation (with 4x the time) before they count
 RETRY_CRASHES = 48    # child deaths re-run in isolation before they count
 
 
 def replay(engine, infile, nshards=None, timeout=30, env=None, rlimit_as=None, race=False, extra=None,
-           crash_is_violation=True, side_path=None):
+           crash_is_violation=True, side_path=None, confirm=None):
     """Feeds every scenario of infile to `wconf replay <engine>` children.  A child that
-    dies is attributed to the scenario in flight; the shard is restarted after it."""
+    dies is attributed to the scenario in flight; the shard is restarted after it.
+    confirm (default: engines that are deterministic functions of the scenario, no VERIF_YIELD): a handful of
+    reported failures is re-run in isolation, twice; one that passes both times is not counted (a verdict has
+    to come from behaviour of the real code that can be shown again) but logged and kept in out.unreproduced."""
+    if confirm is None:
+        confirm = engine not in NONDET_ENGINES and not (env and env.get("VERIF_YIELD"))
     binary = build_harness(race=race)
     nshards = nshards or NCPU
     t_start = time.time()
     out = ReplayOutcome()
     lock = threading.Lock()
     side_out = open(side_path, "w") if side_path else None
+    side_idx = []   # scenario index of every side line written (parallel to the file / to out.side)
 
     def cb(tag, idx, payload):
         with lock:
@@ -328,6 +338,7 @@ def replay(engine, infile, nshards=None, timeout=30, env=None, rlimit_as=None, r
                     side_out.write(payload + "\n")
                 else:
                     out.side.append(payload)
+                side_idx.append(idx)
                 return
             out.total += 1
             if tag == "K":
@@ -457,6 +468,54 @@ def replay(engine, infile, nshards=None, timeout=30, env=None, rlimit_as=None, r
         out.crashes = sorted(reproduced) + rest
         if passed_now:
             log("replay %s: %d child death(s) did not happen again in isolation (not counted)" % (engine, len(passed_now)))
+    # reported failures: confirmed by re-execution when they are few
+    retract = {}
+    if confirm and 0 < len(out.failures) <= CONFIRM_FAILURES:
+        def again(item):
+            idx, sig, _ = item
+            last = None
+            for _ in range(2):
+                res = []
+                _run_child(binary, engine, infile, 0, 1, None, idx, timeout * 2, env, rlimit_as, extra,
+                           lambda tag, i, payload: res.append((tag, i, payload)))
+                verdicts = [t for t, _, _ in res if t in ("K", "F", "E", "T")]
+                if verdicts != ["K"]:
+                    return   # failed again (or could not be re-run): the report stands
+                last = res
+            with lock:
+                retract[idx] = last
+        aths = [threading.Thread(target=again, args=(it,)) for it in out.failures]
+        for i in range(0, len(aths), 8):
+            for t in aths[i:i + 8]:
+                t.start()
+            for t in aths[i:i + 8]:
+                t.join()
+        if retract:
+            for idx, sig, _ in out.failures:
+                if idx in retract:
+                    out.unreproduced.append((idx, sig))
+                    UNREPRODUCED.append({"engine": engine, "scenario_index": idx, "signature": sig})
+                    log("NOTE replay %s: scenario %d reported %s once and passed two isolated re-runs: not counted" % (engine, idx, sig))
+            out.failures = [f for f in out.failures if f[0] not in retract]
+            # the side lines of the first execution are replaced by those of the last re-run
+            if side_out:
+                side_out.close()
+                with open(side_path) as f:
+                    kept = [ln for ln, i in zip(f.readlines(), side_idx) if i not in retract]
+                side_out = open(side_path, "w")
+                side_out.writelines(kept)
+            else:
+                out.side = [ln for ln, i in zip(out.side, side_idx) if i not in retract]
+            for idx, res in retract.items():
+                for tag, i, payload in res:
+                    if tag == "O":
+                        if side_out:
+                            side_out.write(payload + "\n")
+                        else:
+                            out.side.append(payload)
+                    elif tag == "K":
+                        out.passed += 1
+                        out.classes[payload] = out.classes.get(payload, 0) + 1
     log("replay %s: %d scenarios, %d ok, %d failed, %d crashed, %d timed out, %.1fs" %
         (engine, out.total, out.passed, len(out.failures), len(out.crashes), len(out.timeouts), time.time() - t_start))
     if side_out:
@@ -642,6 +701,8 @@ class Verdict:
                 continue
         cov = dict(coverage)
         cov.setdefault("known_finding_hits", {k: c for k, (_, c) in self.known.items()})
+        if UNREPRODUCED:
+            cov.setdefault("reports_not_reproduced_in_isolation", list(UNREPRODUCED))
         ev = {
             "property_id": self.prop, "tier": self.tier, "seed": int(self.seed), "level": level,
             "coverage": cov, "assumptions": assumptions, "wall_s": round(wall, 2),
